@@ -101,6 +101,22 @@ CHECKS = {
               "Pre/PostIncDecOps/CompoundAssignmentOp to rlbox.hpp on every run. Tied to the code by 16 operators x 8 wrapper combinations x 121 type pairs, all 8-bit x 8-bit operand pairs by block hash "
               "(8.4M evaluations in quick), compound assignment and ++/--, with result types asserted at compile time and values compared with the plain expression and with an independent Python rendering."),
         note=NOTE + "The executable C++ integer rules (cppSem, LP64) are used only by the correspondence check; floating point is not exercised."),
+    "C12": dict(
+        engine="calls", design_ref="DESIGN.md §6 C12",
+        technique="Lean 4 theorems on a mutually-recursive call-tree semantics (mutual structural induction) composed with the C13 ownership invariant + differential execution of random trees on three backend/TLS configurations",
+        text=("Proof: C12_dispatch (the function registered for the entry point runs next, with the executing sandbox and the guest's argument), C12_result, C12_executing_sandbox (for trees of any "
+              "depth across any sandboxes every callback and every guest function observes the innermost executing sandbox -- the nesting automaton checks cbRun/guest events), "
+              "C12_dispatch_after_history / C12_owned_is_reachable (after ANY registration history an occupied entry point designates a function held by a live owner and vice versa, by the C13 invariant), "
+              "dylib_callbacks_same_as_noop (source fact). Tied to the code by random registration histories + call trees on vsbx (foreign ABI), noop and noop with embedder-provided TLS."),
+        note=NOTE + "The dylib backend is not executed; its callback code is checked to be textually the noop backend's on every run."),
+    "C19": dict(
+        engine="calls", design_ref="DESIGN.md §6 C19",
+        technique="Lean 4 mutual structural induction over call trees with faults (stack-automaton acceptance + counting) + differential execution with logging transition hooks",
+        text=("Proof: C19_bracketed (for every tree of nested invocations and callbacks, any depth and width, with a fault at any position, the notification sequence is accepted by the bracket "
+              "automaton: in..out for invocations, out..in for callbacks, payload identities matching), C19_one_record_per_crossing (exit-side events = entry-side events, also on exceptional exit), "
+              "C19_scope_exit_once. Tied to the code by random trees with injected aborts and a fixed tree with a fault at every position, hooks logging (kind, name/key, per-sandbox state, compared "
+              "with the sandbox's current state at delivery) and timing records, on vsbx and noop."),
+        note=NOTE + "Timing values are not compared."),
 }
 
 TODO_REASON = "check not built yet in this round (design in DESIGN.md §6); will be claimed when its theorems and correspondence check exist"
